@@ -62,6 +62,8 @@ r(V,'copyright','set_copyright','Copyright','LISTREF_LINES_NOOPT'); r(V,'comment
 V='Dep3'
 r(V,'origin','set_origin','Origin','ORIGIN'); r(V,'forwarded','set_forwarded','Forwarded','FORWARDED'); r(V,'author','set_author','Author','S'); r(V,'last_update','set_last_update','Last-Update','NAIVEDATE')
 r(V,'applied_upstream','set_applied_upstream','Applied-Upstream','APPLIED'); r(V,'description','set_description','Description','S'); r(V,'long_description','set_long_description','Description','LONGDESC')
+# bugs: the upstream bug (field Bug) and per-vendor bugs (field Bug-<Vendor>); one row per vendor name used
+r(V,'bugs','set_upstream_bug','Bug','UPBUG'); r(V,'vendor_bugs_Debian','set_vendor_bug_Debian','Bug-Debian','VBUG:Debian'); r(V,'vendor_bugs_Ubuntu','set_vendor_bug_Ubuntu','Bug-Ubuntu','VBUG:Ubuntu'); r(V,'vendor_bugs_x','set_vendor_bug_x','Bug-x','VBUG:x')
 
 VIEW_TY = {'CtlSource':'debian_control::lossless::control::Source','CtlBinary':'debian_control::lossless::control::Binary','AptSource':'debian_control::lossless::apt::Source','AptPackage':'debian_control::lossless::apt::Package',
  'AptRelease':'debian_control::lossless::apt::Release','Buildinfo':'debian_control::lossless::buildinfo::Buildinfo'}
@@ -98,6 +100,8 @@ def set_expr(kind, sett):
     if kind=='FORWARDED': return f"v.{sett}(val.str_().parse::<dep3::Forwarded>().unwrap())"
     if kind=='APPLIED': return f"v.{sett}(val.str_().parse::<dep3::AppliedUpstream>().unwrap())"
     if kind=='NAIVEDATE': return f"v.{sett}(chrono::NaiveDate::parse_from_str(val.str_(), \"%Y-%m-%d\").unwrap())"
+    if kind=='UPBUG': return "v.set_upstream_bug(val.str_())"
+    if kind.startswith('VBUG:'): return f"v.set_vendor_bug(\"{kind[5:]}\", val.str_())"
     raise KeyError(kind)
 
 def get_expr(kind, get):
@@ -119,6 +123,8 @@ def get_expr(kind, get):
     if kind=='LICENSE': return f"Val::OLicense(v.{get}())"
     if kind=='ORIGIN': return f"Val::OOrigin(v.{get}())"
     if kind=='NAIVEDATE': return f"Val::Str(v.{get}().map(|d| d.format(\"%Y-%m-%d\").to_string()))"
+    if kind=='UPBUG': return "Val::Str(v.bugs().find(|(k, _)| k.is_none()).map(|(_, b)| b))"
+    if kind.startswith('VBUG:'): return f"Val::Str(v.vendor_bugs(\"{kind[5:]}\").next())"
     raise KeyError(kind)
 
 out = ["// @generated by tools/gen_c15_rows.py - do not edit", "use super::c15::{Val, View};", "use deb822_lossless::Paragraph;", "",
